@@ -16,6 +16,9 @@ Meaning of the additional Rust constructs, given ONCE here:
 * `for i in lo..hi { body }` is `Rs.R.forRange lo hi body` over the loop-carried variables: `hi - lo` iterations
   (none when `hi ≤ lo`), `i` counting up from `lo`; a `?` inside the body ends the function through the monad.
   `break` / `continue` / a successful `return` inside such a loop are outside the subset.
+* `reader: &mut (impl Read + Seek)` is the device of the monad like `reader: &mut R`;
+  `(reader as &mut dyn Read).take(n)` is the value `Rs.Take.mk n`.
+* `p.cell.store(v)` on an `AtomicU64` field of a structure held by shared reference: see `Rs.Stores`.
 -/
 
 namespace Rs
@@ -71,7 +74,23 @@ end HashMap
 /-- `Arc::new(x)` -/
 @[inline] def Arc.new {α} (x : α) : α := x
 
+/-- `io::Take<&mut dyn Read>` over THE device of the monad: a reader that delivers at most `limit` further bytes
+of it.  (The layers stacked on a `Take` are another translation group; here a `Take` is the value that says how many
+bytes of the device belong to the entry.) -/
+structure Take where
+  limit : UInt64
+  deriving DecidableEq, Repr
+
+/-- The `cell.store(v)` effects a translated function performed on `AtomicU64` cells of structures it only holds by
+shared reference (`data.data_start.store(..)`), in order: place (as written in the source) and value.  They are part of
+the function's value; a function that fails (`Err`) reports none (the cells written by the translated functions are
+only read through handles that exist after a success). -/
+abbrev Stores := List (String × UInt64)
+
 namespace R
+
+/-- `(reader as &mut dyn Read).take(n)` -/
+def take (n : UInt64) : Take := ⟨n⟩
 
 /-- `n` iterations of a `for` body, the index counting up from `i` -/
 def forN {σ : Type} (body : UInt64 → σ → M σ) : Nat → UInt64 → σ → M σ
